@@ -40,13 +40,35 @@ fn read_host(s: &str) -> Host<String> {
     }
 }
 
+// sampling of the IdnaOK premise on the real crate (reported as a note, never as a mismatch)
+static IDNA_ANSWERS: std::sync::atomic::AtomicU64 = std::sync::atomic::AtomicU64::new(0);
+static IDNA_NOT_OK: std::sync::atomic::AtomicU64 = std::sync::atomic::AtomicU64::new(0);
+static IDNA_FIRST_BAD: std::sync::Mutex<Option<String>> = std::sync::Mutex::new(None);
+
+fn idna_ok_sample(out: &str) {
+    use std::sync::atomic::Ordering::Relaxed;
+    IDNA_ANSWERS.fetch_add(1, Relaxed);
+    let chars_ok = out.chars().all(|c| c.is_ascii() && !c.is_ascii_uppercase() && !spec::forbidden_domain(c));
+    let fixed = idna::domain_to_ascii_cow(out.as_bytes(), idna::AsciiDenyList::URL).map(|c| c == out).unwrap_or(false);
+    if !(chars_ok && fixed) {
+        IDNA_NOT_OK.fetch_add(1, Relaxed);
+        let mut g = IDNA_FIRST_BAD.lock().unwrap();
+        if g.is_none() {
+            *g = Some(format!("{:?} (chars_ok={}, fixed_point={})", out, chars_ok, fixed));
+        }
+    }
+}
+
 fn idna_oracle(name: &str, arg: &str) -> String {
     if name != "idna" {
         return "~".into();
     }
     let bytes = unhexb(arg);
     match std::panic::catch_unwind(move || idna::domain_to_ascii_cow(&bytes, idna::AsciiDenyList::URL).map(|c| c.into_owned())) {
-        Ok(Ok(s)) => hexs(&s),
+        Ok(Ok(s)) => {
+            idna_ok_sample(&s);
+            hexs(&s)
+        }
         _ => "~".into(),
     }
 }
@@ -444,7 +466,7 @@ fn streams<F: FnMut(&str, String)>(args_tier: &str, seed: u64, exhaustive_notes:
         let t: String = s.concat();
         f("exh-ipv6-tokens", format!("parse {}", hexs(&format!("[{}]", t))));
     });
-    for_all_strings(V6_TOKENS_SMALL, if thorough { 9 } else { 7 }, |s| {
+    for_all_strings(V6_TOKENS_SMALL, if thorough { 8 } else { 7 }, |s| {
         if s.len() > k6 {
             let t: String = s.concat();
             f("exh-ipv6-tokens", format!("parse {}", hexs(&format!("[{}]", t))));
@@ -453,7 +475,7 @@ fn streams<F: FnMut(&str, String)>(args_tier: &str, seed: u64, exhaustive_notes:
     exhaustive_notes.push(format!(
         "parse: all bracketed strings of <= {} tokens over {{0,1,f,F,:,::,.,255,256,g}} and of <= {} tokens over {{1,:,::,.,255}}",
         k6,
-        if thorough { 9 } else { 7 }
+        if thorough { 8 } else { 7 }
     ));
 
     // structured random
@@ -522,6 +544,24 @@ fn run_corr(args: &Args) -> Report {
         }
     });
     rep.exhaustive = notes;
+    {
+        use std::sync::atomic::Ordering::Relaxed;
+        // the third clause of IdnaOK: dotted decimal is mapped to itself
+        let mut v4_bad = 0;
+        for a in [0u32, 1, 255, 256, 0x7f000001, 0xffffffff, 0x01020304, 0xc0a80001] {
+            let t = Ipv4Addr::from(a).to_string();
+            if idna::domain_to_ascii_cow(t.as_bytes(), idna::AsciiDenyList::URL).map(|c| c == t).unwrap_or(false) == false {
+                v4_bad += 1;
+            }
+        }
+        rep.notes.push(format!(
+            "IdnaOK sampled on the real idna crate: {} oracle answers, {} not (lower-case ASCII outside the deny list and a fixed point){}; dotted-decimal clause: {} of 8 samples fail",
+            IDNA_ANSWERS.load(Relaxed),
+            IDNA_NOT_OK.load(Relaxed),
+            IDNA_FIRST_BAD.lock().unwrap().as_ref().map(|s| format!(", first: {}", s)).unwrap_or_default(),
+            v4_bad
+        ));
+    }
 
     // the regenerated literal sets against the behaviour of the crate
     let t = drv.ask("tables");
